@@ -436,6 +436,12 @@ func (g *rtGen) alert(r *Rng, k int, trips []map[string]any, base int64) (string
 func (g *rtGen) message(r *Rng, named bool) map[string]any {
 	base := int64(1700000000 + r.Intn(100000))
 	nTrips, nVeh := r.Intn(6), r.Intn(5)
+	// one message in thirty is wide: dozens of trips and vehicles (sizes at which pre-sized slices, slabs and
+	// fixed capacities of the parser stop fitting)
+	wide := r.P(1, 30)
+	if wide {
+		nTrips, nVeh = 10+r.Intn(40), len(vehPool)
+	}
 	var trips []map[string]any
 	for i := 0; i < nTrips; i++ {
 		trips = append(trips, g.tripDesc(r, i, named))
@@ -518,6 +524,11 @@ func (g *rtGen) message(r *Rng, named bool) map[string]any {
 	vehs := []map[string]any{}
 	for _, i := range r.Perm(len(vehPool))[:nVeh] {
 		vehs = append(vehs, deepCopyJSON(vehPool[i]).(map[string]any))
+	}
+	if wide {
+		for k := 0; k < nTrips; k++ {
+			vehs = append(vehs, map[string]any{"id": bstr(fmt.Sprintf("W%d", k))})
+		}
 	}
 	ents := []any{}
 	k := 0
